@@ -466,6 +466,13 @@ func (g *VCGen) applyContract(fc *FuncContract, pkg *types.Package, names []stri
 		g.assumeHere(g.allocFact(name, t, post))
 	}
 	penv := &SpecEnv{g: g, vars: env.vars, cur: post, old: pre, pkg: pkg, results: results, resNames: resNames}
+	// atlock(e) in the callee's postcondition speaks about a state inside the call (right after it took its lock):
+	// for the caller that is some state that differs from the pre-state at most in what the callee may modify
+	if !fc.HasPreserves {
+		penv.atlockState = g.havocFor(pre, g.modLocs(env, fc.Modifies), true)
+	} else {
+		penv.atlockState = g.havocAllBut(pre, g.modLocs(env, fc.Preserves))
+	}
 	for _, c := range fc.Ensures {
 		g.assumeHere(g.trClause(penv, c))
 	}
